@@ -62,6 +62,14 @@ Definition code_str (c : ecode) : string :=
   match c with
   | EServerError => "server_error" | EInvalidRequest => "invalid_request"
   | EInvalidClient => "invalid_client" | EAccessDenied => "access_denied"
+  | EInvalidScope => "invalid_scope" | EInvalidGrant => "invalid_grant"
+  | EUnauthorizedClient => "unauthorized_client" | EUnsupportedGrantType => "unsupported_grant_type"
+  | EInteractionRequired => "interaction_required" | ELoginRequired => "login_required"
+  | ERequestNotSupported => "request_not_supported"
+  | EAuthorizationPending => "authorization_pending" | ESlowDown => "slow_down"
+  | EExpiredToken => "expired_token" | EInvalidTarget => "invalid_target"
+  | ECustom => "temporarily_unavailable"     (* the driver's type outside the library's list *)
+  | EEmpty => ""
   end.
 (* oidc.DefaultToServerError: an *oidc.Error anywhere in the chain keeps its code *)
 Definition dcode (kd : kind) : ecode := match as_oidc kd with Some (c, _) => c | None => EServerError end.
@@ -80,6 +88,10 @@ Definition write_error : kind -> prog :=
   fun kd => Ret (R (if is_server (dcode kd) then K5xx else K4xx) (code_str (dcode kd)) []).
 (* WriteError of a StatusError with a 5xx status *)
 Definition status_error_5xx : kind -> prog := fun kd => Ret (R K5xx (code_str (dcode kd)) []).
+(* RevocationError (both routers; Storage.RevokeToken returns *oidc.Error): the status is 500 for
+   server_error, 401 for invalid_client and 400 for EVERY other type - there is a default *)
+Definition revocation_error : kind -> prog :=
+  fun kd => Ret (R (if is_server (dcode kd) then K5xx else K4xx) (code_str (dcode kd)) []).
 Definition pass (r : router) : kind -> prog :=
   match r with RProvider => request_error | RLegacy => write_error end.
 (* a server-side failure the handler cannot see through (flattened error text) *)
@@ -290,7 +302,9 @@ Definition h_introspect (r : router) (c : client) : prog :=
    getTokenIDAndSubjectForRevocation: when a JWT access token cannot be verified the
    handler carries on and hands the raw token to RevokeToken. *)
 Definition h_revoke (r : router) (c : client) (t : revtok) (hint : bool) : prog :=
-  let revoke := Call MRevokeToken (errs K5xx "server_error") (ok KOk []) in
+  (* a storage reports the failure of RevokeToken as an *oidc.Error of its own choice (refstore: the
+     injected value if it is or wraps one, otherwise server_error with the value as parent) *)
+  let revoke := Call MRevokeToken revocation_error (ok KOk []) in
   let decrypt :=
     match t with
     | RevAccess => if jwt_at c then Call MKeySet (fun _ => revoke) revoke else revoke
